@@ -215,7 +215,7 @@ theorem step_entries (own : String) (s : St) (op : Op) :
     · simp only [step, classify, h, if_true, evStep]; split <;> rfl
     · simp only [step, classify, h, if_false, evStep]; split <;> rfl
   | disconnected en cr =>
-    cases en <;> cases cr <;> simp [step, classify, evStep, St.cleared]
+    cases hin : s.inSession <;> cases en <;> cases cr <;> simp [step, classify, evStep, St.cleared, hin]
   | response k sender ok items =>
     simp only [step, classify]
     cases hd : delivered own s k sender <;> cases ok <;> simp [evStep]
@@ -273,7 +273,8 @@ theorem step_pres (own : String) (s : St) (op : Op) (b r : String) :
     · simp only [step, classify, h, if_true, pairStep]; split <;> rfl
     · simp only [step, classify, h, if_false, pairStep]; split <;> rfl
   | disconnected en cr =>
-    cases en <;> cases cr <;> simp [step, classify, pairStep, St.cleared, resTable_nil, lookupKey_nil]
+    cases hin : s.inSession <;> cases en <;> cases cr <;>
+      simp [step, classify, pairStep, St.cleared, resTable_nil, lookupKey_nil, hin]
   | response k sender ok items =>
     simp only [step, classify]
     cases hd : delivered own s k sender <;> cases ok <;> simp [pairStep]
@@ -315,33 +316,6 @@ theorem run_pres (own : String) (s : St) (ops : List Op) (b r : String) :
   induction ops generalizing s with
   | nil => rfl
   | cons op rest ih => simp only [run_cons, trace, List.foldl_cons, ih, step_pres]
-
-/-! ### session-level trace vs. code-level trace -/
-
-/-- `disconnected` seen while `streamManagementState()` reports no stream management -/
-def Op.isNoSmDisc : Op → Bool
-  | .disconnected false _ => true
-  | _ => false
-
-theorem classifyS_eq (own : String) (s : St) (op : Op) (h : op.isNoSmDisc = false) :
-    classifyS own s op = classify own s op := by
-  cases op with
-  | disconnected en cr =>
-    cases en
-    · simp [Op.isNoSmDisc] at h
-    · simp [classifyS, classify]
-  | connected sm auth => rfl
-  | response k sender ok items => rfl
-  | rosterIq type sender id items => rfl
-  | presence sender type status => rfl
-
-theorem traceS_eq_trace (own : String) (s : St) (ops : List Op) (h : ∀ op ∈ ops, op.isNoSmDisc = false) :
-    traceS own s ops = trace own s ops := by
-  induction ops generalizing s with
-  | nil => rfl
-  | cons op rest ih =>
-    simp only [traceS, trace]
-    rw [classifyS_eq own s op (h op (by simp)), ih _ (fun o ho => h o (by simp [ho]))]
 
 /-! ### invariants -/
 
@@ -387,11 +361,12 @@ theorem Inv.step (own : String) {s : St} (hi : Inv s) (op : Op) : Inv (step own 
       · exact ⟨List.nodup_nil, List.nodup_nil, by intro p hp; cases hp⟩
       · exact ⟨List.nodup_nil, List.nodup_nil, by intro p hp; cases hp⟩
   | disconnected en cr =>
-    cases en <;> cases cr <;> simp only [Qx.C12.step, if_true, if_false, Bool.false_eq_true]
-    · exact ⟨List.nodup_nil, List.nodup_nil, by intro p hp; cases hp⟩
-    · exact hi.cleared
-    · exact ⟨hi.entries, hi.pres, hi.inner⟩
-    · exact hi
+    cases hin : s.inSession <;> cases en <;> cases cr <;>
+      simp only [Qx.C12.step, hin, if_true, if_false, Bool.false_eq_true, Bool.not_false, Bool.not_true] <;>
+      first
+        | exact hi
+        | exact ⟨hi.entries, hi.pres, hi.inner⟩
+        | exact ⟨List.nodup_nil, List.nodup_nil, by intro p hp; cases hp⟩
   | response k sender ok items =>
     simp only [Qx.C12.step]
     cases hd : delivered own s k sender <;> cases ok <;> simp only [if_true, if_false, Bool.false_eq_true]
@@ -467,7 +442,7 @@ theorem step_received (own : String) (s : St) (op : Op) :
     · simp only [step, classify, h, if_true, recStep]; split <;> rfl
     · simp only [step, classify, h, if_false, recStep]; split <;> rfl
   | disconnected en cr =>
-    cases en <;> cases cr <;> simp [step, classify, recStep, St.cleared]
+    cases hin : s.inSession <;> cases en <;> cases cr <;> simp [step, classify, recStep, St.cleared, hin]
   | response k sender ok items =>
     simp only [step, classify]
     cases hd : delivered own s k sender <;> cases ok <;> simp [recStep]
